@@ -43,7 +43,8 @@ EXPECTED_PROBES = ["alt_spelling_hit", "with_nested", "with_restored_insert", "w
                    "defaults_overwrote_stale_default", "defaults_kept_user_value", "refresh_after_set",
                    "device_rejected", "device_accepted", "get_missing_raised", "get_default_used",
                    "kw_form", "mapping_value_replaced_subtree", "global_arm", "device_via_defaults_rejected",
-                   "device_via_defaults_accepted", "falsy_value_set", "falsy_value_read_with_default"]
+                   "device_via_defaults_accepted", "falsy_value_set", "falsy_value_read_with_default",
+                   "same_key_in_mapping_and_kwargs"]
 
 NODES = ["n1", "sec_a", "grp_b_c"]
 LEAVES = ["x", "y", "opt_one", "lim_lo_hi", "verbose"]
@@ -141,7 +142,8 @@ def _gen_defaults_tree(r, i):
 def _gen_op(r, i, kinds, depth=0):
     k = r.pick(kinds)
     if k == "set":
-        return {"op": "set", "form": r.pick(["map", "map", "kw"]), "items": _gen_items(r, i)}
+        return {"op": "set", "form": r.pick(["map", "map", "kw", "both"]), "items": _gen_items(r, i),
+                "dup": r.chance(0.3)}
     if k == "with":
         body = []
         if depth < 2:
@@ -155,7 +157,8 @@ def _gen_op(r, i, kinds, depth=0):
                     body.append(_gen_op(r.fork(("w", q)), i * 7 + q + 1, ["with"], depth + 1))
                 else:
                     body.append(_gen_op(r.fork(("g", q)), i, ["get"], depth + 1))
-        return {"op": "with", "form": r.pick(["map", "kw"]), "items": _gen_items(r, i + 3),
+        return {"op": "with", "form": r.pick(["map", "kw", "both"]), "items": _gen_items(r, i + 3),
+                "dup": r.chance(0.3),
                 "body": body, "raise_inside": r.chance(0.15)}
     if k == "defaults":
         return {"op": "defaults", "tree": _gen_defaults_tree(r, i)}
@@ -360,7 +363,15 @@ def run(plan):
             """(positional mapping or None, kwargs) for a set-like op + model assignments."""
             assigns = []
             mp, kws = {}, {}
-            for it in op["items"]:
+            items = list(op["items"])
+            both = op.get("form") == "both"
+            if both and op.get("dup") and items and "map" not in items[0]:
+                # the same key in the mapping AND the keyword arguments: keywords are applied last
+                items = [dict(items[0], val=(items[0]["val"] + 7 if isinstance(items[0]["val"], int)
+                                             else 777), _force="map")] + [dict(items[0], _force="kw")] \
+                    + items[1:]
+                bump(probes, "same_key_in_mapping_and_kwargs")
+            for q_, it in enumerate(items):
                 sp = _spell(it["path"])
                 if "map" in it:
                     val = {(lf.replace("_", "-") if dash else lf): v for lf, dash, v in it["map"]}
@@ -370,12 +381,16 @@ def run(plan):
                         "val"]
                     if isinstance(it["val"], str):
                         bump(probes, "falsy_value_set")
-                if op.get("form") == "kw":
+                as_kw = op.get("form") == "kw" or (both and (it.get("_force") == "kw" or (
+                    it.get("_force") is None and q_ % 2 == 1)))
+                if as_kw:
                     kws["__".join(sp)] = val
                 else:
                     mp[".".join(sp)] = val
-                assigns.append((_npath(it["path"]), mval, "map" in it))
-            return (mp if op.get("form") != "kw" else None), kws, assigns
+                assigns.append((_npath(it["path"]), mval, "map" in it, as_kw))
+            # real order of application: mapping entries first, then keyword arguments
+            assigns = [a_[:3] for a_ in assigns if not a_[3]] + [a_[:3] for a_ in assigns if a_[3]]
+            return (mp if (op.get("form") != "kw" and (mp or not kws)) else None), kws, assigns
 
         def note_spelling(path_segs_spelled, npath):
             # did this spelling differ from the spelling stored first?
